@@ -4,12 +4,14 @@ import (
 	"encoding/json"
 	"fmt"
 	"go/token"
+	"io"
 	"strings"
 	"sync"
 	"time"
 
 	"github.com/cosmos72/gomacro/base"
 	"github.com/cosmos72/gomacro/fast"
+	"github.com/cosmos72/gomacro/fast/debug"
 
 	"verif/harness/core"
 	"verif/harness/gm"
@@ -68,6 +70,7 @@ type c19Debugger struct {
 	all     bool
 	calls   []c19Call
 	stopped []c19Call
+	real    *debug.Debugger
 }
 
 func c19Pos(env *fast.Env) (token.Pos, bool) {
@@ -78,7 +81,7 @@ func c19Pos(env *fast.Env) (token.Pos, bool) {
 	return p, p == token.NoPos
 }
 
-func (d *c19Debugger) answer(env *fast.Env, kind string) fast.DebugOp {
+func (d *c19Debugger) answer(ir *fast.Interp, env *fast.Env, kind string) fast.DebugOp {
 	pos, synth := c19Pos(env)
 	call := c19Call{kind: kind, depth: env.CallDepth, pos: pos, synth: synth}
 	d.calls = append(d.calls, call)
@@ -95,27 +98,48 @@ func (d *c19Debugger) answer(env *fast.Env, kind string) fast.DebugOp {
 		cmd = d.script[d.next]
 	}
 	d.next++
-	switch cmd {
-	case "step":
-		return fast.DebugOpStep
-	case "next":
-		return fast.DebugOp{Depth: env.CallDepth + 1}
-	case "finish":
-		return fast.DebugOp{Depth: env.CallDepth}
+	// the command is given to the shipped debugger (fast/debug: prompt, command lookup,
+	// command-to-depth mapping of cmd.go) through the interpreter's Readline
+	gl := &ir.Comp.Globals
+	saved := gl.Readline
+	gl.Readline = &c19Line{line: cmd + "\n"}
+	defer func() { gl.Readline = saved }()
+	if d.real == nil {
+		d.real = &debug.Debugger{}
 	}
-	return fast.DebugOpContinue
+	if kind == "bp" {
+		return d.real.Breakpoint(ir, env)
+	}
+	return d.real.At(ir, env)
+}
+
+// c19Line is a base.Readline that delivers one line, then EOF.
+type c19Line struct {
+	line string
+	used bool
+}
+
+func (l *c19Line) Read(prompt string) ([]byte, error) {
+	if l.used {
+		return nil, io.EOF
+	}
+	l.used = true
+	return []byte(l.line), nil
 }
 
 func (d *c19Debugger) Breakpoint(ir *fast.Interp, env *fast.Env) fast.DebugOp {
-	return d.answer(env, "bp")
+	return d.answer(ir, env, "bp")
 }
-func (d *c19Debugger) At(ir *fast.Interp, env *fast.Env) fast.DebugOp { return d.answer(env, "at") }
+func (d *c19Debugger) At(ir *fast.Interp, env *fast.Env) fast.DebugOp {
+	return d.answer(ir, env, "at")
+}
 
 func c19Interp() *gm.Interp {
 	g := gm.New()
 	g.Ir.Comp.Globals.Options |= base.OptDebugger
 	g.Eval(`import "errors"`)
 	g.Eval(c07Prelude)
+	g.Eval("var c19t int")
 	return g
 }
 
@@ -133,7 +157,9 @@ func c19Debug(g *gm.Interp, entry string, d *c19Debugger) (events []string, resu
 				}
 			}
 		}()
-		vs, _ := g.Ir.Debug(entry)
+		// two more top-level statements follow the call: "finish" in the outermost function must
+		// stop at the first of them (top-level code runs at depth 0 and is stepped as well)
+		vs, _ := g.Ir.Debug("c19r := " + entry + "; c19t++; c19r")
 		for _, v := range vs {
 			r.Values = append(r.Values, gm.ShowValue(v))
 		}
@@ -279,15 +305,24 @@ func c19StopSig(cs *c19Case, rec *c19Rec, d *c19Debugger) string {
 		cmd = rec.Cmds[k-1]
 	}
 	// predicate SigCallerEnteredRunning: the first stop that is missing lies in a frame shallower
-	// than a breakpoint that was reached while running freely (after `continue`): that caller
-	// frame was entered by the executor's fast path and only polls for debug mode every 14
-	// statements
+	// than a breakpoint that was reached while running freely: that caller frame was entered by
+	// the executor's fast path and only polls for debug mode every 14 statements. Frames run
+	// freely after `continue`, and - when they are deeper than the frame the command was given
+	// in - after `next` and `finish` (which only ask for stops at that depth or above)
 	if k < len(rec.Stops) {
 		miss := cs.ground[rec.Stops[k].At-1]
-		for j := 0; j < k; j++ {
-			if rec.Stops[j].Kind == "bp" && j > 0 && j-1 < len(rec.Cmds) && rec.Cmds[j-1] == "continue" &&
-				miss.D < cs.ground[rec.Stops[j].At-1].D {
+		for j := 1; j < k; j++ {
+			if rec.Stops[j].Kind != "bp" || j-1 >= len(rec.Cmds) || miss.D >= cs.ground[rec.Stops[j].At-1].D {
+				continue
+			}
+			prev := cs.ground[rec.Stops[j-1].At-1]
+			switch rec.Cmds[j-1] {
+			case "continue":
 				return "SigCallerEnteredRunning:stop-in-caller-missed"
+			case "next", "finish":
+				if miss.D > prev.D {
+					return "SigCallerEnteredRunning:stop-in-caller-missed"
+				}
 			}
 		}
 	}
@@ -325,15 +360,22 @@ func runC19(c *core.Ctx) error {
 			mu.Unlock()
 			return
 		}
+		// (every run starts from a fresh interpreter with the same history: source positions of
+		// the top-level statements depend on what was evaluated before)
+		fresh := func() *gm.Interp {
+			g := c19Interp()
+			g.Eval(pc.Decls)
+			return g
+		}
 		d := &c19Debugger{all: true}
-		c19Debug(g, pc.Entry, d)
+		c19Debug(fresh(), pc.Entry, d)
 		ground := c19Ground(d.calls)
 		if len(ground) == 0 || len(ground) > 200 {
 			return
 		}
 		// determinism of the ground trace
 		d2 := &c19Debugger{all: true}
-		c19Debug(g, pc.Entry, d2)
+		c19Debug(fresh(), pc.Entry, d2)
 		g2 := c19Ground(d2.calls)
 		if len(g2) != len(ground) {
 			mu.Lock()
